@@ -500,6 +500,58 @@ Fixpoint map_chars (f : ascii -> ascii) (s : string) : string :=
 Definition opt_tokens (opts : string) : list string :=
   words (map_chars paren_eq_blank (lower (colon_sub opts 0 false))).
 
+(* ---- MIP/mip/datacard.py: to_float (token level) ---------------------------- *)
+(* Which spelling is handed to float(): the token itself when Python's float()
+   reads it, otherwise mantissa ++ "e" ++ exponent when re_fortran matches
+   (^([-+]?(?:[0-9]+\.?[0-9]*|\.[0-9]+))[dD]?([-+]?[0-9]+)$), otherwise nothing
+   (ValueError). float() is modelled on tokens over [0-9 . + - e E d D] only
+   (no blanks, underscores, inf, nan). *)
+
+Definition strip_sign (s : string) : string :=
+  match s with
+  | String c r => if is_sign c then r else s
+  | EmptyString => EmptyString
+  end.
+
+Definition sign_of (s : string) : string :=
+  match s with
+  | String c _ => if is_sign c then String c "" else ""
+  | EmptyString => ""
+  end.
+
+(* digits+ [. digits*] | . digits+ at the start of b: (mantissa, rest) *)
+Definition mantissa_split (b : string) : option (string * string) :=
+  let (d1, r1) := span is_digit b in
+  match r1 with
+  | String "." r2 =>
+      let (d2, r3) := span is_digit r2 in
+      if nonempty d1 || nonempty d2 then Some (d1 ++ String "." d2, r3) else None
+  | _ => if nonempty d1 then Some (d1, r1) else None
+  end.
+
+(* [-+]? digits+ up to the end *)
+Definition exp_ok (r : string) : bool :=
+  let b := strip_sign r in nonempty b && all_chars is_digit b.
+
+(* Python float(): sign? mantissa ([eE] sign? digits+)? *)
+Definition py_float_ok (t : string) : bool :=
+  match mantissa_split (strip_sign t) with
+  | None => false
+  | Some (_, EmptyString) => true
+  | Some (_, String c r) => (ceq c "e" || ceq c "E") && exp_ok r
+  end.
+
+Inductive float_reading := ReadAsIs (t : string) | ReadFortran (t : string) | NotRead.
+
+Definition to_float_form (t : string) : float_reading :=
+  if py_float_ok t then ReadAsIs t
+  else match mantissa_split (strip_sign t) with
+       | Some (m, String c r) =>
+           let e := if ceq c "d" || ceq c "D" then r else String c r in
+           if exp_ok e then ReadFortran (sign_of t ++ m ++ "e" ++ e) else NotRead
+       | _ => NotRead
+       end.
+
 (* ---- the front end: text -> contents of the cards of each block ------------- *)
 
 Definition block_cards (b : string) : list string := map content (get_cards b).
